@@ -38,8 +38,12 @@ Weakest readings (the property text is silent; see also ``ASSUMPTIONS``):
   * account_sortkey: the order of the *types* is beancount's (assets, liabilities, equity, income,
     expenses), read from the options of the ledger.
   * possign / neg / abs compare numerically (0 == -0; exponent not compared).
-  * round: the result must be a multiple of 10^-digits nearest to x; on exact ties either neighbour is
-    accepted (half-even and half-up both pass).  safediv(x, 0) = 0; otherwise the exact quotient when it
+  * round: "equal decimal arithmetic" = the multiple of 10^-digits nearest to x and, on an exact tie, the neighbour
+    whose last kept digit is even (the rounding of decimal arithmetic's default context, of Decimal.__round__ and
+    of int.__round__; the reference is written with fractions and cross-checked against CPython's round() on the same
+    operand, a disagreement being a harness error).  The exponent of the result is not compared.  Exact ties after an
+    even and after an odd kept digit, of both signs, for digits -1..2 are in the domain, over columns and as
+    constants (folding path), also through round(neg(c)).  safediv(x, 0) = 0; otherwise the exact quotient when it
     has <= 28 significant digits, else within one unit of the 28th digit.
   * maxwidth(s, n) only for n >= 5 (the placeholder "[...]" must fit): len(result) <= n; when the
     whitespace-normalised text fits it is returned (when s itself fits, s is accepted too); otherwise the
@@ -88,7 +92,7 @@ ASSUMPTIONS = [
     "root(a, n) generated for n >= 1 only; parent() of a one-component name (and parent/leaf of the empty name reached by nesting) is NULL or '', which of the two is not stated",
     'account_sortkey type order = beancount account-types order taken from the ledger options (trusted)',
     'possign/neg/abs/safediv compared numerically (sign of zero and exponent are not compared)',
-    'round: nearest multiple of 10^-digits, exact ties accept either neighbour; safediv(x, 0) = 0, quotient exact or within 1 ulp of 28 digits',
+    'round: nearest multiple of 10^-digits, exact ties to the even neighbour (decimal arithmetic default rounding = Decimal.__round__ = int.__round__), exponent not compared; safediv(x, 0) = 0, quotient exact or within 1 ulp of 28 digits',
     'maxwidth only for widths >= 5: len <= n, identity (up to whitespace normalisation) when it fits, otherwise whole leading words + " [...]"',
     'splitcomp/grepn only with in-range indexes (negative splitcomp indexes count from the end); regex functions follow Python re without flags',
     'findfirst: NULL only if no member matches at its start, otherwise any member in which the pattern is found',
@@ -1139,25 +1143,60 @@ def num_eq(want):
     return Pred(lambda got: None if isinstance(got, D) and eq(got, want) else f'{want} (Decimal)')
 
 
-def round_pred(x, digits, typ):
-    """nearest multiple of 10^-digits; on an exact tie either neighbour."""
+def round_ref(x, digits):
+    """(value, tie, kept_digit_even) -- nearest multiple of 10^-digits, exact ties to the even multiple (half-even),
+    written with fractions only."""
     q = fractions.Fraction(10) ** (-digits)
     fx = fractions.Fraction(x)
-    lo = (fx / q).__floor__() * q
-    ok = {lo} if lo == fx else ({lo} if fx - lo < q / 2 else {lo + q} if fx - lo > q / 2 else {lo, lo + q})
+    k = (fx / q).__floor__()            # fx lies in [k*q, (k+1)*q)
+    rem = fx - k * q
+    if rem * 2 < q:
+        return k * q, False, None
+    if rem * 2 > q:
+        return (k + 1) * q, False, None
+    # exact tie: towards zero the kept digit is that of k (x >= 0) or of k + 1 (x < 0)
+    kept_even = (k if fx >= 0 else k + 1) % 2 == 0
+    return (k if k % 2 == 0 else k + 1) * q, True, kept_even
+
+
+def round_selfcheck(x, digits, single=False):
+    """The reference must be CPython's own round() on the same operand (trusted); otherwise the harness is wrong."""
+    want = round_ref(x, digits)[0]
+    py = round(x, digits)
+    if fractions.Fraction(py) != want or (single and fractions.Fraction(round(x)) != want):
+        raise AssertionError(f'harness: round reference {want} differs from round({x!r}, {digits}) = {py!r}')
+
+
+def round_pred(x, digits, typ):
+    want, tie, _ = round_ref(x, digits)
 
     def test(got):
         if type(got) is not typ:
             return f'a result of type {typ.__name__}'
-        if fractions.Fraction(got) in ok:
-            return None
-        return ' or '.join(str(float(v)) if v.denominator != 1 else str(int(v)) for v in sorted(ok))
-    return Pred(test), len(ok) > 1
+        try:
+            if got.is_finite() if typ is D else True:
+                if fractions.Fraction(got) == want:
+                    return None
+        except (ValueError, decimal.InvalidOperation):
+            pass
+        text = str(int(want)) if want.denominator == 1 else str(D(want.numerator) / D(want.denominator))
+        return text + (' (exact tie: decimal arithmetic rounds to the even neighbour)' if tie else '')
+    return Pred(test), tie
+
+
+def note_tie(acc, x, digits):
+    _, tie, kept_even = round_ref(x, digits)
+    if tie:
+        acc.count('round_exact_ties')
+        acc.count(f"round_ties_{'pos' if x > 0 else 'neg'}_after_{'even' if kept_even else 'odd'}_digit_k{digits}")
 
 
 def sec_num_unary(acc, rows, params):
     rows = [tuple(r) for r in rows]
     x = col('x')
+    for r in rows:
+        round_selfcheck(r[0], 0, single=True)
+        note_tie(acc, r[0], 0)
     specs = [Spec(F('abs', x), 'abs', lambda r: num_eq(r[0] if r[0] >= 0 else 0 - r[0])),
              Spec(F('neg', x), 'neg', lambda r: num_eq(0 - r[0])),
              Spec(F('round', x), 'round', lambda r: round_pred(r[0], 0, D)[0])]
@@ -1167,21 +1206,43 @@ def sec_num_unary(acc, rows, params):
 
 
 def sec_num_round(acc, rows, params):
-    """rows: (x, k) -- x Decimal or int (params['type'])."""
+    """rows: (x, k) -- x Decimal or int (params['type']); operands are columns."""
     rows = [tuple(r) for r in rows]
     typ = D if params['type'] == 'decimal' else int
-    specs = [Spec(F('round', col('x'), col('k')), f'round', lambda r: round_pred(r[0], r[1], typ)[0])]
+    for r in rows:
+        round_selfcheck(r[0], r[1])
+        note_tie(acc, r[0], r[1])
+    specs = [Spec(F('round', col('x'), col('k')), 'round', lambda r: round_pred(r[0], r[1], typ)[0])]
     res = run_specs(acc, 'num_round', params, plain_conn, [('x', typ), ('k', int)], rows, specs)
-    for row, cells in zip(rows, res):
-        tie = round_pred(row[0], row[1], typ)[1]
-        if tie:
-            acc.count('round_exact_ties')
-            if isinstance(cells[0], (D, int)) and (fractions.Fraction(cells[0]) / fractions.Fraction(10) ** (-row[1])) % 2 == 0:
-                acc.count('round_ties_resolved_to_even')
     if typ is int:
         one = [r for r in rows if r[1] == 0]
         run_specs(acc, 'num_round', params, plain_conn, [('x', typ), ('k', int)], one,
                   [Spec(F('round', col('x')), 'round', lambda r: r[0])])
+    ties = [(r, c) for r, c in zip(rows, res) if round_ref(r[0], r[1])[1]]
+    if ties:
+        acc.sample({'section': 'num_round', 'tie': [lit(v) for v in ties[-1][0]], 'cells': [lit(c) for c in ties[-1][1]]}, limit=1)
+
+
+def sec_num_round_const(acc, rows, params):
+    """rows: (x, k) -- the operands as literals (constant folding): round(x, k), round(x) for k = 0 and, for
+    decimals, round(neg(-x), k)."""
+    rows = [tuple(r) for r in rows]
+    typ = D if params['type'] == 'decimal' else int
+    acc.count('argument_rows', len(rows))
+    for row in rows:
+        x, k = row
+        round_selfcheck(x, k)
+        note_tie(acc, x, k)
+        exprs = [F('round', C(x), C(k))]
+        if k == 0:
+            exprs.append(F('round', C(x)))
+        if typ is D:
+            exprs.append(F('round', F('neg', C(0 - x)), C(k)))
+        cells = evaluate(acc, plain_conn, [('z', int)], [(0,)], exprs)[0]
+        for e, got in zip(exprs, cells):
+            check_cell(acc, 'num_round_const', params, ['x', 'k'], row, Spec(e, 'round', None), got, round_pred(x, k, typ)[0])
+            if got is not None and got.__class__ is not Raised and not eq(got, x):
+                acc.count('nontrivial_cells')
 
 
 def quotient_pred(x, y):
@@ -1479,7 +1540,7 @@ SECTIONS = {
     'acct_root': sec_acct_root, 'acct_parts': sec_acct_parts, 'acct_parts_const': sec_acct_parts_const, 'acct_sort': sec_acct_sort, 'acct_possign': sec_acct_possign,
     'str_basic': sec_str_basic, 'str_substr': sec_str_substr, 'str_split': sec_str_split, 'str_maxwidth': sec_str_maxwidth,
     'str_grep': sec_str_grep, 'str_subst': sec_str_subst, 'str_sets': sec_str_sets, 'str_findfirst': sec_str_findfirst,
-    'num_unary': sec_num_unary, 'num_round': sec_num_round, 'num_safediv': sec_num_safediv,
+    'num_unary': sec_num_unary, 'num_round': sec_num_round, 'num_round_const': sec_num_round_const, 'num_safediv': sec_num_safediv,
     'cast': sec_cast, 'cast_ymd': sec_cast_ymd,
 }
 
@@ -1600,12 +1661,51 @@ def g_decimals(mmax, exps):
     return [(x,) for x in decimals(mmax, exps)]
 
 
-ROUND_INTS = tuple(range(-20, 21)) + (25, 35, 45, 50, 55, 150, 250, -25, -35, -150, 1234, 995)
+ROUND_INTS = tuple(range(-20, 21)) + (25, 35, 45, 50, 55, 150, 250, -25, -35, -150, 1234, 995, 105, 115, 125, -105, -115, -125)
+ROUND_DIGITS = (-1, 0, 1, 2)
+
+
+def tie_decimals():
+    """(j + 1/2) * 10^-k for every digits argument k: exact ties after an even and after an odd kept digit, both signs,
+    one- and multi-digit kept parts, plus a second representation with a trailing zero."""
+    out = []
+    for k in ROUND_DIGITS:
+        for j in (-13, -12, -3, -2, -1, 0, 1, 2, 11, 12):
+            t = D(2 * j + 1).scaleb(-k) / 2 if k <= 0 else D(10 * j + 5).scaleb(-k - 1)
+            out.append(t)
+            out.append(t * D('1.0'))
+    seen, uniq = set(), []
+    for t in out:
+        if str(t) not in seen:
+            seen.add(str(t))
+            uniq.append(t)
+    return uniq
+
+
+def round_values(kind, mmax, exps):
+    if kind == 'int':
+        return list(ROUND_INTS)
+    seen, out = set(), []
+    for x in decimals(mmax, exps) + tie_decimals():
+        if str(x) not in seen:
+            seen.add(str(x))
+            out.append(x)
+    return out
 
 
 def g_round(kind, mmax, exps):
-    xs = decimals(mmax, exps) if kind == 'decimal' else ROUND_INTS
-    return [(x, k) for x in xs for k in (-1, 0, 1, 2)]
+    return [(x, k) for x in round_values(kind, mmax, exps) for k in ROUND_DIGITS]
+
+
+def g_round_const(kind):
+    """ties for some digits argument (evaluated with every digits argument) and a few non-ties."""
+    xs = [t for t in tie_decimals() if str(t)[-1] == '5'] + [D('0.124'), D('0.126'), D('-2.4'), D('2.6'), D('14'), D('16')] \
+        if kind == 'decimal' else [x for x in ROUND_INTS if x % 5 == 0 and x % 10] + [14, 16, -14, -16, 0]
+    return [(x, k) for x in xs for k in ROUND_DIGITS]
+
+
+def g_unary(mmax, exps):
+    return [(x,) for x in round_values('decimal', mmax, exps)]
 
 
 def g_safediv(kind, mmax, exps, part, nparts):
@@ -1629,7 +1729,7 @@ def g_ymd():
 
 
 GEN = {f.__name__: f for f in (g_dates, g_addsub, g_pairs, g_interval, g_interval2, g_acct_root, g_acct, g_acct_possign, g_strings,
-                               g_substr, g_split, g_maxwidth, g_grep, g_subst, g_sets, g_findfirst, g_decimals, g_round, g_safediv,
+                               g_substr, g_split, g_maxwidth, g_grep, g_subst, g_sets, g_findfirst, g_decimals, g_round, g_round_const, g_unary, g_safediv,
                                g_cast, g_ymd)}
 GEN['none'] = lambda: []
 
@@ -1703,9 +1803,11 @@ def build_tasks(tier, seed):
     add(1, 'str_findfirst', {}, 'g_findfirst', seed, 3 if quick else 5)
     # --- numbers ---------------------------------------------------------------------------------------
     mmax, exps = (20, (-2, -1, 0, 1)) if quick else (50, (-3, -2, -1, 0, 1, 2))
-    add(1, 'num_unary', {}, 'g_decimals', mmax, exps)
+    add(1, 'num_unary', {}, 'g_unary', mmax, exps)
     add(1, 'num_round', {'type': 'decimal'}, 'g_round', 'decimal', mmax, exps)
     add(1, 'num_round', {'type': 'int'}, 'g_round', 'int', mmax, exps)
+    add(1, 'num_round_const', {'type': 'decimal'}, 'g_round_const', 'decimal')
+    add(1, 'num_round_const', {'type': 'int'}, 'g_round_const', 'int')
     nparts = 1 if quick else 12
     for part in range(nparts):
         add(4, 'num_safediv', {'type': 'decimal'}, 'g_safediv', 'decimal', mmax, exps, part, nparts)
